@@ -60,3 +60,34 @@ def render(v):
     if k == "O":
         return bytes.fromhex(v[2][1])
     return None
+
+
+# --------------------------------------------------------------------------- watchdogs that survive a busy machine
+FAILED = ("hang", "died", "skipped")
+
+
+def robust_batch(cmd, requests, hang_s=120.0, retries=2, **kw):
+    """vcommon.run_batch (which already re-runs a `hang` alone with 4x the limit) plus one more layer:
+    a reply `hang` / `died ...` / `skipped ...` is only kept when it reproduces once more, run ALONE in a
+    fresh process with twice the no-progress limit (`died` / `skipped`: up to `retries` times); the first real
+    reply wins.  A thorough run on a machine that is busy with other builds - or swapping - must not turn a
+    slow reply into a finding.  Returns (replies, stats), stats = {"retried", "recovered", "reproduced"}."""
+    import vcommon as V
+    reps = V.run_batch(cmd, requests, hang_s=hang_s, **kw)
+    stats = {"retried": 0, "recovered": 0, "reproduced": 0}
+    for i, r in enumerate(reps):
+        if r is None or r.startswith(FAILED):
+            stats["retried"] += 1
+            final = r
+            for _ in range(1 if r == "hang" else retries):
+                again = V.run_batch(cmd, [requests[i]], hang_s=2 * hang_s, confirm_hangs=False, **kw)[0]
+                if again is not None and not again.startswith(FAILED):
+                    final = again
+                    break
+                final = again if again is not None else final
+            if final is not None and not final.startswith(FAILED):
+                stats["recovered"] += 1
+            else:
+                stats["reproduced"] += 1
+            reps[i] = final
+    return reps, stats
